@@ -52,8 +52,9 @@ def generate(seed, tier, cfg):
         # no repeat structure at all
         p["repeats"], p["endings"], p["nav"] = [], [], []
         p["repeat_shape"] = "none"
-    for e in p["endings"]:
-        e["number"] = str(e["number"])
+    if k.random() < 0.5:
+        for e in p["endings"]:
+            e["number"] = str(e["number"])  # as the MusicXML importer stores them; otherwise ints as documented
     ops = []
     for _ in range(k.choice((3, 4, 6, 8))):
         x = o.random()
